@@ -7,7 +7,7 @@ from . import c05
 PROPERTY = 'C11'
 BUDGET = {'quick': {'seconds': 1200, 'xreplay_every': 100}, 'thorough': {'seconds': 6000, 'xreplay_every': 2000}}
 NONTRIVIAL = {'quick': ['failed-at-loss.publish', 'failed-at-loss.subscribe', 'failed-at-loss.unsubscribe', 'held-back-at-loss', 'pubrel-stage-at-loss',
-                        'retransmitted-before-loss', 'loss.close', 'loss.reset', 'loss.abort', 'loss.keepalive', 'loss.disconnect', 'second-connection-clean']}
+                        'retransmitted-before-loss', 'loss.close', 'loss.reset', 'loss.abort', 'loss.keepalive', 'loss.disconnect', 'second-connection-clean', 'refused-with-early-publish']}
 
 KINDS = ('publish', 'subscribe', 'unsubscribe', 'PUBACK', 'PUBREC', 'PUBCOMP', 'SUBACK', 'UNSUBACK', 'advance', 'LOSS')
 LOSSES = ('close', 'reset', 'abort', 'keepalive', 'disconnect')
@@ -117,7 +117,42 @@ def h_clean(eng, params):
     return flow.finish()
 
 
-HARNESSES = {'clean': h_clean}
+def h_refused(eng, params):
+    """requests issued before a CONNACK that then refuses the connection are pending when the broker closes it"""
+    flow = Flow(eng, params['profile'], clean=True)
+    w = flow.w
+    flow.open(connack=False)
+    c1 = flow.c
+    n = eng.choose((1, 2), 'early-publishes')
+    for j in range(n):
+        flow.publish(qos=eng.int('qos', 1, 2))
+    flow.connack(0, eng.int('rc', 1, 255))
+    eng.count('refused-with-early-publish')
+    if eng.choose(2, 'advance-before-close'):
+        flow.advance(hi=20)
+    pend = [r for r in flow.reqs if r.tr is not None and r.accepted() and not r.tr.fired]
+    flow.lose(clean_close=True)
+    ls = c1.lose_step
+    for r in pend:
+        f = r.tr.fired
+        eng.check(len(f) == 1 and f[0][0] == ls and not f[0][1], 'pending-not-failed-at-loss',
+                  'publish issued before a refusing CONNACK %s when the connection was lost' % ('did not fail' if not f else 'fired otherwise'),
+                  sig='pending-not-failed-at-loss:publish:refused')
+        if len(f) == 1 and not f[0][1]:
+            eng.check(f[0][2] is c1.reason, 'failed-with-other-reason', sig='failed-with-other-reason:publish:refused')
+    flow.open(clean=True)
+    c2 = flow.c
+    newpub = flow.publish(qos=0)
+    flow.advance(50)
+    flow.advance(5000)
+    got = [p['type'] for (st, cc, p) in flow.all_packets([c2])]
+    eng.check(got == ['CONNECT', 'PUBLISH'], 'carried-over', 'the next clean connection wrote %s' % got, sig='carried-over')
+    late = [e for e in w.events if e.kind == 'write' and e.conn is c1 and e.step > ls]
+    eng.check(not late, 'write-after-loss')
+    return flow.finish()
+
+
+HARNESSES = {'clean': h_clean, 'refused': h_refused}
 
 
 def shards(tier):
@@ -127,6 +162,8 @@ def shards(tier):
         for loss in LOSSES:
             for first in KINDS:
                 out.append(('clean', {'profile': profile, 'loss': loss, 'k': 5 if T else 3, 'first': first}))
+    for profile in ('publisher', 'pubsubs'):
+        out.append(('refused', {'profile': profile}))
     return out
 
 
@@ -134,7 +171,7 @@ META = {
     'rule': 'clean-session client, window symbolic; up to k free steps from {publish(QoS symbolic), subscribe, unsubscribe, PUBACK/PUBREC/PUBCOMP/SUBACK/UNSUBACK with '
             'symbolic identifier, advance(dt symbolic)}; the loss is one of the step kinds, so every prefix is cut; five loss kinds; then a rebuilt protocol, clean '
             'connect, CONNACK, one QoS 0 publish, one subscribe (acknowledged), 5050 s',
-    'bounds': {'quick': 'k<=3 steps before the loss; 3 profiles x 5 loss kinds', 'thorough': 'k<=5'},
+    'bounds': {'quick': 'k<=3 steps before the loss; 3 profiles x 5 loss kinds; plus: 1..2 publishes before a CONNACK with return code 1..255 (symbolic), then the broker closes', 'thorough': 'k<=5'},
     'stubs': ['fake transport with asynchronous loss', 'twisted task.Clock', 'jitter: fixed sequence'],
     'outside': ['histories longer than k steps before the loss', 'events between abort()/disconnect() and the loss report (C18)', 'keepalive periods other than 5 s for the keepalive-timeout loss'],
     'assumptions': ['acknowledgement types fit the exchange they may address'],
